@@ -78,14 +78,14 @@ FINGERPRINT_ITEMS: List[Tuple[str, Optional[str]]] = [
     (f"{CG}/client.py", "ClientGenerator._create_async_operation_method"),
 ]
 
-TRIGGERS = ["listArg", "pyName", "sharedMut", "nameClash"]
+TRIGGERS = ["listArg", "pyName", "sharedMut", "nameClash", "ownedReuse"]
 # C14-F2 ("deepVars": an argument below level 2 was never declared) was repaired by /repo dfbc7ef: its old
 # trigger is no trigger any more.  The predicate is kept (here and in the Lean driver) only to MEASURE how
 # many generated operations lie in the region the theorem gained (`region:old-F2 ...`).
 # failure signature -> finding triggers that may explain it, most specific first
 SIGNATURE_TRIGGERS: Dict[str, List[str]] = {
     "var-type-not-exact": ["listArg", "nameClash", "sharedMut"],
-    "var-undeclared": ["sharedMut"],
+    "var-undeclared": ["sharedMut", "ownedReuse"],
     "field-name-not-graphql": ["pyName", "sharedMut"],
     "var-declared-twice": [],
     "document-does-not-parse": [],
@@ -95,12 +95,12 @@ SIGNATURE_TRIGGERS: Dict[str, List[str]] = {
     "var-shared-between-uses": ["nameClash", "sharedMut"],
     "var-not-bound-to-callers-value": ["nameClash", "sharedMut"],
     "server-receives-other-value": ["nameClash", "sharedMut"],
-    "history-dependent": ["sharedMut"],
+    "history-dependent": ["sharedMut", "ownedReuse"],
     "alias-not-as-written": ["sharedMut"],
     "selection-differs": ["sharedMut"],
     "argument-set-differs": ["sharedMut"],
     "builder-raises": ["sharedMut"],
-    "validation-error": ["sharedMut"],
+    "validation-error": ["sharedMut", "ownedReuse"],
     "var-declared-unused": ["sharedMut"],
 }
 
@@ -488,6 +488,13 @@ class ExprGen:
         self.table = {c["name"]: c for c in table}
         self.alias_counter = 0
         self.mode: Dict[str, Any] = {}
+        # python variables of the current sequence: name -> {"cls": class whose accessor built the object, "resp":
+        # response name, "root": built by a Query/Mutation accessor}; `pending` = assignments of the current operation
+        self.vars: Dict[str, Dict[str, Any]] = {}
+        self.pending: List[List[Any]] = []
+        self.var_counter = 0
+        self.p_hoist = 0.0
+        self.p_reuse = 0.0
 
     # -- classes / accessors ------------------------------------------------------------------
     def class_for(self, tname: str) -> Optional[str]:
@@ -640,7 +647,28 @@ class ExprGen:
         if acc["kind"] == "shared" and any(c[0] == "fields" for c in calls):
             return None
         se["calls"] = calls
+        se["kind"] = acc["kind"]
+        # keep the object in a python variable (`v3 = UserFields.friends(first=2).fields(...)`) and use the variable
+        # here; later selections - of this and of later operations - may use the same OBJECT again.  Only objects a
+        # classmethod returned, built without touching a class-level object (those have their own finding, F4).
+        if acc["kind"] == "method" and self.p_hoist and rng.random() < self.p_hoist and not se_mutates_shared(se):
+            self.var_counter += 1
+            name = f"v{self.var_counter}"
+            self.vars[name] = {"cls": cls, "resp": se_resp_name(se), "root": depth == 1}
+            self.pending.append([name, se])
+            return {"var": name}
         return se
+
+    def reuse(self, cls: str, root: bool, taken: set) -> Optional[Dict[str, Any]]:
+        """a variable assigned earlier in the sequence whose object fits here (same class of accessors, response name free)"""
+        if not self.p_reuse or self.rng.random() >= self.p_reuse:
+            return None
+        cands = [n for n, v in self.vars.items() if v["cls"] == cls and v["root"] == root and v["resp"] not in taken]
+        if not cands:
+            return None
+        name = self.rng.choice(cands)
+        taken.add(self.vars[name]["resp"])
+        return {"var": name}
 
     def on_calls(self, tname: str, depth: int, max_depth: int, scope: set) -> List[List[Any]]:
         rng = self.rng
@@ -672,6 +700,10 @@ class ExprGen:
             return []
         out: List[Dict[str, Any]] = []
         for _ in range(rng.randint(1, 3)):
+            v = self.reuse(cls, False, scope)
+            if v is not None:
+                out.append(v)
+                continue
             a, f = rng.choice(cands)
             n = self.node(cls, a, f, depth, max_depth, scope)
             if n is not None:
@@ -679,6 +711,9 @@ class ExprGen:
         return out
 
     def top(self, root_cls: str, root_type: str, max_depth: int, taken: set) -> Optional[Dict[str, Any]]:
+        v = self.reuse(root_cls, True, taken)
+        if v is not None:
+            return v
         cands = [(a, f) for a, f in self.accessors(root_cls, root_type, True) if self.usable(a, f, 1)]
         if not cands:
             return None
@@ -693,13 +728,22 @@ class ExprGen:
             return None
         taken: set = set()
         fields = []
+        self.pending = []
         for _ in range(rng.choice([1, 1, 2, 2, 3])):
             n = self.top(root_cls, root_type, rng.choice(self.mode["depths"]), taken)
             if n is not None:
                 fields.append(n)
         if not fields:
+            # the assignments already written stay (they were executed), as an operation of their own would not be sent
+            for name, _ in self.pending:
+                self.vars.pop(name, None)
+            self.pending = []
             return None
-        return {"type": op_type, "name": name, "fields": fields}
+        out = {"type": op_type, "name": name, "fields": fields}
+        if self.pending:
+            out["lets"] = self.pending
+            self.pending = []
+        return out
 
     def set_mode(self, flavour: str) -> None:
         rng = self.rng
@@ -722,7 +766,14 @@ class ExprGen:
 
     def sequence(self, flavour: str) -> List[Dict[str, Any]]:
         self.set_mode("wild" if flavour == "illformed" else flavour)
-        n_hist = self.rng.choice([0, 1, 1, 2, 3])
+        self.vars = {}
+        self.pending = []
+        # python variables: in 40 % of the sequences (never in the deliberately ill-formed ones) objects returned by
+        # classmethods are kept in variables and used again - in the same operation and in later ones
+        with_vars = flavour != "illformed" and self.rng.random() < 0.4
+        self.p_hoist = 0.3 if with_vars else 0.0
+        self.p_reuse = 0.5 if with_vars else 0.0
+        n_hist = self.rng.choice([1, 2, 2, 3]) if with_vars else self.rng.choice([0, 1, 1, 2, 3])
         ops = []
         for i in range(n_hist + 1):
             o = self.op(f"Op{i}")
@@ -760,8 +811,81 @@ class ExprGen:
         op["illFormed"] = True
 
 
+def is_var(se: Dict[str, Any]) -> bool:
+    return "var" in se
+
+
+def se_resp_name(se: Dict[str, Any]) -> str:
+    al = None
+    for c in se["calls"]:
+        if c[0] == "alias":
+            al = c[1]
+    return al or se["field"]
+
+
+def se_mutates_shared(se: Dict[str, Any]) -> bool:
+    """a class-level object inside the tree has alias/on applied to it (variables inside are clean by construction)"""
+    if is_var(se):
+        return False
+    if se.get("kind") == "shared" and se["calls"]:
+        return True
+    return any(se_mutates_shared(c) for c in se_children(se))
+
+
+def defs_upto(ops: List[Dict[str, Any]], k: int) -> Dict[str, Dict[str, Any]]:
+    """variable -> the SE it was assigned, for every assignment executed up to (and including) operation k"""
+    out: Dict[str, Dict[str, Any]] = {}
+    for o in ops[: k + 1]:
+        for name, se in o.get("lets", []):
+            out[name] = se
+    return out
+
+
+def expand_se(se: Dict[str, Any], defs: Dict[str, Dict[str, Any]]) -> Dict[str, Any]:
+    """the tree the expression denotes: every variable replaced by (a copy of) the expression that built its object;
+    the root of every copy is marked with `fromVar`"""
+    if is_var(se):
+        out = expand_se(defs[se["var"]], defs)
+        out["fromVar"] = se["var"]
+        return out
+    out = dict(se)
+    out.pop("fromVar", None)
+    calls = []
+    for c in se["calls"]:
+        if c[0] == "fields":
+            calls.append(["fields", [expand_se(x, defs) for x in c[1]]])
+        elif c[0] == "on":
+            calls.append(["on", c[1], [expand_se(x, defs) for x in c[2]]])
+        else:
+            calls.append(list(c))
+    out["calls"] = calls
+    return out
+
+
+def expand_op(op: Dict[str, Any], defs: Dict[str, Dict[str, Any]]) -> Dict[str, Any]:
+    out = {k: v for k, v in op.items() if k != "lets"}
+    out["fields"] = [expand_se(f, defs) for f in op["fields"]]
+    return out
+
+
+def owned_reuse(xop: Dict[str, Any]) -> bool:
+    """F6 trigger on the EXPANDED operation: the object of one variable is rendered twice and its tree carries a
+    non-None argument"""
+    occ: Dict[str, List[Dict[str, Any]]] = {}
+    for f in xop["fields"]:
+        for se, _ in walk_se(f):
+            if se.get("fromVar"):
+                occ.setdefault(se["fromVar"], []).append(se)
+    for name, nodes in occ.items():
+        if len(nodes) >= 2 and any(v is not None for se, _ in walk_se(nodes[0]) for _, v in se["args"]):
+            return True
+    return False
+
+
 def se_to_expr(se: Dict[str, Any]) -> Dict[str, Any]:
     """the python expression (as the JSON the Lean driver and the interpreter below both read)"""
+    if is_var(se):
+        return {"k": "var", "x": se["var"]}
     if se["kind"] == "shared":
         e: Dict[str, Any] = {"k": "attr", "cls": se["cls"], "attr": se["attr"]}
     else:
@@ -783,7 +907,7 @@ def se_to_expr(se: Dict[str, Any]) -> Dict[str, Any]:
 
 def se_children(se: Dict[str, Any]) -> List[Dict[str, Any]]:
     out: List[Dict[str, Any]] = []
-    for c in se["calls"]:
+    for c in se.get("calls", []):
         if c[0] == "fields":
             out += c[1]
         elif c[0] == "on":
@@ -861,6 +985,7 @@ def deep_region(op: Dict[str, Any]) -> bool:
 
 
 def classify(history: List[Dict[str, Any]], op: Dict[str, Any]) -> Dict[str, bool]:
+    """history and op are EXPANDED operations (expand_op): variables written out"""
     nodes = [nd for f in op["fields"] for nd in walk_se(f)]
     list_arg = any(v is not None and T_has_list(se["argTypes"].get(n, {"n": "?"})) for se, _ in nodes for n, v in se["args"])
     py_name = any(se["kind"] == "method" and se["cls"] not in ("Query", "Mutation") and se["py"] != se["field"] for se, _ in nodes)
@@ -872,7 +997,8 @@ def classify(history: List[Dict[str, Any]], op: Dict[str, Any]) -> Dict[str, boo
             shared = True
         if any(j != i and m and c2 == c and a2 == a for j, (c2, a2, m) in enumerate(own)):
             shared = True
-    return {"listArg": list_arg, "pyName": py_name, "sharedMut": shared, "nameClash": syntactic_clash(op)}
+    return {"listArg": list_arg, "pyName": py_name, "sharedMut": shared, "nameClash": syntactic_clash(op),
+            "ownedReuse": owned_reuse(op)}
 
 
 def rsel_arg_names(r: Dict[str, Any]) -> List[str]:
@@ -908,8 +1034,10 @@ def _gen_one(root: str, sdl: str, package: str, is_async: bool) -> List[str]:
     return g.files
 
 
-def _interp(mods: Dict[str, Any], pkg: Any, e: Dict[str, Any]) -> Any:
+def _interp(mods: Dict[str, Any], pkg: Any, e: Dict[str, Any], env: Optional[Dict[str, Any]] = None) -> Any:
     k = e["k"]
+    if k == "var":
+        return (env or {})[e["x"]]  # the OBJECT assigned earlier, not a copy
     if k == "attr":
         return getattr(mods[e["cls"]], e["attr"])
     if k == "call":
@@ -918,15 +1046,15 @@ def _interp(mods: Dict[str, Any], pkg: Any, e: Dict[str, Any]) -> Any:
             kwargs[item[0]] = _conv(pkg, wire.dec(item[1]), item[2] if len(item) > 2 else None)
         return getattr(mods[e["cls"]], e["attr"])(**kwargs)
     if k == "alias":
-        return _interp(mods, pkg, e["e"]).alias(e["a"])
+        return _interp(mods, pkg, e["e"], env).alias(e["a"])
     if k == "fields":
-        recv = _interp(mods, pkg, e["e"])
+        recv = _interp(mods, pkg, e["e"], env)
         meth = recv.fields
-        return meth(*[_interp(mods, pkg, c) for c in e["cs"]])
+        return meth(*[_interp(mods, pkg, c, env) for c in e["cs"]])
     if k == "on":
-        recv = _interp(mods, pkg, e["e"])
+        recv = _interp(mods, pkg, e["e"], env)
         meth = recv.on
-        return meth(e["ty"], *[_interp(mods, pkg, c) for c in e["cs"]])
+        return meth(e["ty"], *[_interp(mods, pkg, c, env) for c in e["cs"]])
     raise ValueError(k)
 
 
@@ -955,6 +1083,30 @@ def _class_map(pkg_name: str) -> Dict[str, Any]:
     return out
 
 
+def inline_expr(e: Dict[str, Any], defs: Dict[str, Dict[str, Any]]) -> Dict[str, Any]:
+    """the expression with every variable replaced by the expression that built its object (fresh objects)"""
+    if e["k"] == "var":
+        return copy.deepcopy(defs[e["x"]])
+    if e["k"] in ("attr", "call"):
+        return e
+    out = dict(e)
+    out["e"] = inline_expr(e["e"], defs)
+    if "cs" in e:
+        out["cs"] = [inline_expr(c, defs) for c in e["cs"]]
+    return out
+
+
+def inline_ops(ops: List[Dict[str, Any]], key: str) -> List[Dict[str, Any]]:
+    """every operation of a sequence written out without variables (`key` = "exprs" or "fields")"""
+    defs: Dict[str, Dict[str, Any]] = {}
+    out = []
+    for o in ops:
+        for name, ex in o.get("lets", []):
+            defs[name] = inline_expr(ex, defs)
+        out.append({"type": o["type"], "name": o["name"], key: [inline_expr(e, defs) for e in o[key]]})
+    return out
+
+
 def _run_sequence(pkg_name: str, is_async: bool, ops: List[Dict[str, Any]]) -> List[Dict[str, Any]]:
     """in a grandchild forked right after the import: evaluate and send every operation of the sequence"""
     import httpx
@@ -969,10 +1121,13 @@ def _run_sequence(pkg_name: str, is_async: bool, ops: List[Dict[str, Any]]) -> L
 
     client = engine.make_generated_client(pkg, handler, is_async=is_async)
     out: List[Dict[str, Any]] = []
+    env: Dict[str, Any] = {}  # python variables of the script: they live as long as the process
     for op in ops:
         before = len(sent)
         try:
-            fields = [_interp(mods, pkg, e) for e in op["exprs"]]
+            for name, ex in op.get("lets", []):
+                env[name] = _interp(mods, pkg, ex, env)
+            fields = [_interp(mods, pkg, e, env) for e in op["exprs"]]
             meth = getattr(client, op["type"])
             if is_async:
                 asyncio.run(meth(*fields, operation_name=op["name"]))
@@ -1144,14 +1299,17 @@ def schema_case(root: Path, seed: str, budget: Dict[str, int], fixed: Optional[D
         return out
     runs: List[Dict[str, Any]] = []
     for si, sq in enumerate(seqs):
-        ops = [{"type": o["type"], "name": o["name"], "exprs": [se_to_expr(f) for f in o["fields"]]} for o in sq["ops"]]
+        ops = [{"type": o["type"], "name": o["name"], "exprs": [se_to_expr(f) for f in o["fields"]],
+                "lets": [[name, se_to_expr(d)] for name, d in o.get("lets", [])]} for o in sq["ops"]]
+        # reference: the same expression built from fresh objects (variables written out) in a fresh process
+        alone = inline_ops(ops, "exprs")
         per_kind: Dict[str, Any] = {}
         for kind, is_async in (("sync", False), ("async", True)):
             status, val = engine.forked(_run_sequence, f"gen_{kind}", is_async, ops, timeout=600)
             hist = [analyse(schema_obj, {}, r) for r in val] if status == "ok" else None
             fresh = []
             if kind == "sync" or si % 4 == 0:  # the fresh-process document does not depend on the client flavour; sampled for async
-                for o in ops:
+                for o in alone:
                     st2, v2 = engine.forked(_run_sequence, f"gen_{kind}", is_async, [o], timeout=600)
                     fresh.append(analyse(schema_obj, {}, v2[0]) if st2 == "ok" else {"error": f"harness:{st2}"})
             per_kind[kind] = {"status": status, "hist": hist, "fresh": fresh, "detail": None if status == "ok" else val}
@@ -1188,6 +1346,8 @@ def finish_se(schema: Dict[str, Any], table: List[Dict[str, Any]], seqs: List[Di
         return None
 
     def go(se: Dict[str, Any]) -> None:
+        if is_var(se):
+            return
         acc = tab.get(se["cls"], {}).get(se["attr"])
         f = schema_field(se["cls"], se["field"])
         se["kind"] = acc["kind"] if acc else "method"
@@ -1203,6 +1363,8 @@ def finish_se(schema: Dict[str, Any], table: List[Dict[str, Any]], seqs: List[Di
 
     for sq in seqs:
         for o in sq["ops"]:
+            for _, d in o.get("lets", []):
+                go(d)
             for f in o["fields"]:
                 go(f)
 
@@ -1220,7 +1382,7 @@ def strip_expr(e: Dict[str, Any]) -> Dict[str, Any]:
     """the expression as the Lean driver reads it (value conversions are a Python-only side channel)"""
     if e["k"] == "call":
         return {"k": "call", "cls": e["cls"], "attr": e["attr"], "kw": [[x[0], x[1]] for x in e["kw"]]}
-    if e["k"] == "attr":
+    if e["k"] in ("attr", "var"):
         return e
     out = dict(e)
     out["e"] = strip_expr(e["e"])
@@ -1232,9 +1394,10 @@ def strip_expr(e: Dict[str, Any]) -> Dict[str, Any]:
 def lean_line(case: Dict[str, Any]) -> Dict[str, Any]:
     seqs = []
     for sq in case["seqs"]:
-        ops = [{"type": o["type"], "name": o["name"], "fields": [strip_expr(se_to_expr(f)) for f in o["fields"]]} for o in sq["ops"]]
+        ops = [{"type": o["type"], "name": o["name"], "fields": [strip_expr(se_to_expr(f)) for f in o["fields"]],
+                "lets": [[name, strip_expr(se_to_expr(d))] for name, d in o.get("lets", [])]} for o in sq["ops"]]
         seqs.append(ops)
-        for o in ops:  # the same operation alone, from a fresh state
+        for o in inline_ops(ops, "fields"):  # the same operation alone, variables written out, from a fresh state
             seqs.append([o])
     return {"op": "case", "schema": schema_for_lean(case["schema"]), "seqs": seqs}
 
@@ -1439,7 +1602,13 @@ def process_case(ctx: Ctx, res: Result, case: Dict[str, Any], model: Optional[Di
     mi = 0
     for si, sq in enumerate(case["seqs"]):
         ops = sq["ops"]
-        wants = [[expected_rsel(f) for f in o["fields"]] for o in ops]
+        # what every operation denotes: variables written out (expand_op); the raw operations are what is run
+        xops = [expand_op(o, defs_upto(ops, k)) for k, o in enumerate(ops)]
+        wants = [[expected_rsel(f) for f in xo["fields"]] for xo in xops]
+        has_vars = any(o.get("lets") for o in ops)
+        if has_vars:
+            res.count("vars:sequence-assigns-objects-to-python-variables")
+        rendered_at: Dict[str, set] = {}  # variable (object with arguments) -> top-level indices it was rendered under
         m_hist = model["seqs"][mi] if model is not None else None
         m_fresh = [model["seqs"][mi + 1 + k][0] for k in range(len(ops))] if model is not None else None
         mi += 1 + len(ops)
@@ -1454,7 +1623,8 @@ def process_case(ctx: Ctx, res: Result, case: Dict[str, Any], model: Optional[Di
                 fresh = run["fresh"][k] if run["fresh"] else None
                 if fresh is not None and str(fresh.get("error", "")).startswith("harness:"):
                     raise common.Infra(f"C14 fresh-process run failed: {fresh['error']}")
-                trig = classify(ops[:k], o)  # decided on the input alone; used to attribute failures to findings
+                xo = xops[k]
+                trig = classify(xops[:k], xo)  # decided on the input alone; used to attribute failures to findings
                 lean_view = dict(trig)       # the Lean side states F5 on the document the operation produces
                 lean_view["nameClash"] = doc_clash(a.get("ir"))
                 if lean_view["nameClash"] != trig["nameClash"] and not trig["sharedMut"] and not o.get("illFormed"):
@@ -1463,8 +1633,10 @@ def process_case(ctx: Ctx, res: Result, case: Dict[str, Any], model: Optional[Di
                 inp = {**base_input, "client": kind, "sequence": si, "op": k, "flavour": sq["flavour"],
                        "replay": {"schema": strip_py(case["schema"]), "seqs": [{"flavour": sq["flavour"], "ops": ops[: k + 1]}]}}
                 res.seen([case["seed"], si, k, kind], True)
-                deep = deep_region(o)
+                deep = deep_region(xo)
                 if kind == "sync":
+                    if has_vars:
+                        var_measure(res, xo, rendered_at)
                     for t, v in trig.items():
                         if v:
                             res.count("trigger:" + t)
@@ -1476,12 +1648,12 @@ def process_case(ctx: Ctx, res: Result, case: Dict[str, Any], model: Optional[Di
                                 res.count("region:old-F2, outside every open trigger, with inline fragments")
                     if not any(trig.values()):
                         res.count("ops-outside-every-trigger")
-                        proved = not any(m for h in ops[: k + 1] for _, _, m in shared_occurrences(h))
+                        proved = not any(m for h in xops[: k + 1] for _, _, m in shared_occurrences(h))
                         res.count("region:theorem (Supported_14 and Proved_14)" if proved
                                   else "region:supported-but-unproved (a class-level object is mutated, never re-used)")
                     else:
                         res.count("region:finding")
-                    res.count("op-depth:%d" % max(d for f in o["fields"] for _, d in walk_se(f)))
+                    res.count("op-depth:%d" % max(d for f in xo["fields"] for _, d in walk_se(f)))
                     res.count("op-top-level-fields:%d" % len(o["fields"]))
                     if "ir" in a:
                         res.count("doc:variables:%d" % min(len(a["ir"]["varDefs"]), 6))
@@ -1516,6 +1688,29 @@ def process_case(ctx: Ctx, res: Result, case: Dict[str, Any], model: Optional[Di
                 for sig, detail in judged:
                     t = attribute(sig, trig)
                     res.failures.append(Failure(sig, t, inp, f"{kind} client, {detail}; triggers={[x for x, v in trig.items() if v]}; query={a.get('query', '')[:300]!r}"))
+
+
+def var_measure(res: Result, xo: Dict[str, Any], rendered_at: Dict[str, set]) -> None:
+    """how often the generated histories exercise re-use of one owned object (measured on the expanded operation)"""
+    here: Dict[str, List[int]] = {}
+    for i, f in enumerate(xo["fields"]):
+        for se, _ in walk_se(f):
+            if se.get("fromVar"):
+                with_args = any(v is not None for x, _ in walk_se(se) for _, v in x["args"])
+                res.count("vars:use-of-a-variable" + (" (object with arguments)" if with_args else " (no arguments)"))
+                if with_args:
+                    here.setdefault(se["fromVar"], []).append(i)
+    if here:
+        res.count("vars:op-renders-a-variable-object-with-arguments")
+    for name, idxs in here.items():
+        if len(idxs) >= 2:
+            res.count("vars:object-with-arguments-rendered-twice-in-one-operation (F6 region)")
+        before = rendered_at.get(name)
+        if before:
+            res.count("vars:object-with-arguments-rendered-again-in-a-later-operation")
+            if set(idxs) - before:
+                res.count("vars:... under another top-level index (other variable suffix)")
+        rendered_at.setdefault(name, set()).update(idxs)
 
 
 def strip_py(schema: Dict[str, Any]) -> Dict[str, Any]:
@@ -1653,7 +1848,7 @@ def run(ctx: Ctx, st: Optional[LeanStatus]) -> Result:
                                     "the operation); operations outside every finding trigger that do mutate a class-level object which is never "
                                     "re-used are covered by correspondence and oracle only (counted as region:supported-but-unproved)")
     res.assumptions += [
-        "builder expressions are trees: an object returned by a generated classmethod is used once (class-level objects may be used anywhere, any number of times)",
+        "objects returned by generated classmethods are used once OR kept in python variables and used again unchanged, any number of times, in the same and in later operations (no alias/fields/on applied THROUGH a variable); class-level objects may be used anywhere, any number of times",
         "expression depth stays far below CPython's recursion limit",
         "python names of fields/arguments are inputs of the generator model (computed with the real process_name / str_to_snake_case; C18 owns them)",
     ]
